@@ -14,6 +14,7 @@ func init() {
 	rt.Register("C04_roundtrip_unicode", VerifHarness_C04_roundtrip_unicode)
 	rt.Register("C10_writer", VerifHarness_C10_writer)
 	rt.Register("C10_reader", VerifHarness_C10_reader)
+	rt.Register("C10_reader_many", VerifHarness_C10_reader_many)
 	rt.Register("C13_par1_truncate", VerifHarness_C13_par1_truncate)
 	rt.Register("C13_par1_corrupt", VerifHarness_C13_par1_corrupt)
 	rt.Register("C19_par1_fields", VerifHarness_C19_par1_fields)
@@ -377,6 +378,46 @@ func VerifHarness_C10_reader() {
 	}
 	d, ok := fs.files[p1Dir+"/skip"]
 	rt.Assert(ok && bytesEqual(d, []byte{7, 7, 7, 7, 7}), "the non-saved file is left alone")
+}
+
+// A conformant index with more than 256 entries, most of them not saved in the
+// parity set: the volumes are still all found and two lost files are restored
+// from the two volumes.
+func VerifHarness_C10_reader_many() {
+	useReedSolomonStub()
+	extra := []int{253, 254, 260}[rt.Choice("nonSaved", 3)] // 255, 256 (control), 262 entries in total
+	saved := []refEntry{{"a", rt.Bytes("a", 2), true}, {"b", rt.Bytes("b", 2), true}}
+	entries := []refEntry{saved[0]}
+	for i := 0; i < extra; i++ {
+		name := "n" + string(rune('0'+i/100)) + string(rune('0'+i/10%10)) + string(rune('0'+i%10))
+		entries = append(entries, refEntry{name, []byte{byte(i)}, false})
+	}
+	entries = append(entries, saved[1])
+	vol := func(v int) []byte {
+		p := make([]byte, 2)
+		for i, e := range saved {
+			c := gf8pow(byte(i+1), v-1)
+			for j := range e.data {
+				p[j] ^= gf8mul(c, e.data[j])
+			}
+		}
+		return p
+	}
+	fs := newSymFS()
+	fs.put(p1Index, refVolume(entries, 0, []byte("c")))
+	fs.put(p1VolPath(1), refVolume(entries, 1, vol(1)))
+	fs.put(p1VolPath(2), refVolume(entries, 2, vol(2)))
+	res, err := verify(fs, p1Index, VerifyOptions{})
+	rt.Assert(err == nil, "a conformant set with many non-saved entries verifies")
+	if err == nil {
+		rt.Assert(res.FileCounts.UnusableDataFileCount == 2 && res.FileCounts.UsableParityFileCount == 2, "only saved entries are counted; both volumes are found")
+	}
+	_, rerr := repair(fs, p1Index, RepairOptions{})
+	rt.Assert(rerr == nil, "two lost files with two volumes are repaired")
+	for _, e := range saved {
+		d, ok := fs.files[p1Dir+"/"+e.name]
+		rt.Assert(ok && bytesEqual(d, e.data), "the lost file is restored exactly, under its own name")
+	}
 }
 
 // ---- PAR1 side of C13 / C19 / C15 / C18 ----
